@@ -209,6 +209,15 @@ std::string run_session(const std::string& line, int line_no) {
                 r = std::to_string(S.exp->write_block(blk));
             } else if (op == "AB") {
                 r = "i" + std::to_string(S.exp->add_block_parameters(S.bps.at(rec::U(arg))));
+            } else if (op == "EH") {
+                // edit the hints of the active parameter set in place (documented accessor get_active_block_parameters_ref())
+                auto a = vh::split(arg, ':');
+                CDNS::StorageHints& h = S.exp->get_active_block_parameters_ref().storage_parameters.storage_hints;
+                h.query_response_hints = static_cast<uint32_t>(rec::U(a[0]));
+                h.query_response_signature_hints = static_cast<uint32_t>(rec::U(a[1]));
+                h.rr_hints = static_cast<uint8_t>(rec::U(a[2]));
+                h.other_data_hints = static_cast<uint8_t>(rec::U(a[3]));
+                r = "ok";
             } else if (op == "SA") {
                 r = S.exp->set_active_block_parameters(static_cast<CDNS::index_t>(rec::U(arg))) ? "t" : "f";
             } else if (op == "C") {
